@@ -343,6 +343,9 @@ class Models:
         if not cands:
             norm = lambda s: s.replace(' ', '')
             cands = [c for c in r.get('inner', []) if c.get('kind') == 'CXXConstructorDecl' and norm(c['type']['qualType']) == norm(ctor_t)]
+        if not cands:
+            base = lambda s: norm(s).replace('noexcept(false)', '').replace('noexcept', '')
+            cands = [c for c in r.get('inner', []) if c.get('kind') == 'CXXConstructorDecl' and base(c['type']['qualType']) == base(ctor_t)]
         if not cands: return None
         c = cands[0]
         return e.ast.fn_def.get(c['id'], c)
@@ -555,6 +558,17 @@ class Models:
             return
         if t.kind == 'record':
             e.copy_fields(st, dst, src); return
+        if t.kind == 'set' and (self.is_edge_set(src) or self.is_scalar_set(src)):
+            arr = e.harr(st, 'sset.member', z3.ArraySort(I, z3.ArraySort(I, B)))
+            st.heap['sset.member'] = z3.Store(arr, dst.ref, z3.Select(arr, src.ref))
+            e.hwrite(st, 'set.size', dst.ref, e.hread(st, 'set.size', src.ref, I))
+            if self.is_edge_set(src):
+                ety = t.args[0]
+                for path, lt in e.leaves(ety):
+                    key = e.vec_data_key(ety, path)
+                    a_ = e.harr(st, key, z3.ArraySort(I, z3.ArraySort(I, e.sort_of(lt))))
+                    st.heap[key] = z3.Store(a_, dst.ref, z3.Select(a_, src.ref))
+            return
         if t.kind == 'map':
             return        # contents of std::map members are not tracked
         if t.kind == 'flist':
@@ -785,19 +799,57 @@ class Models:
             return out
         raise Unsupported('std::copy form at %s' % e.where(n, fr))
 
-    # std::set<edge>: finite map keyed by the ordered node pair (n1 < n2); DESIGN A.5
-    def set_arrays(self, st):
+    # std::set<edge> (ordered by the Cantor hash of the sorted node pair, so two edges are equivalent iff they join the same
+    # two nodes): a finite map from the key ekey(n1,n2) to the stored edge. Membership is the boolean array sset.member[set][key],
+    # the stored edges live in the element store of type edge at [set][key] (so *it is an ordinary element l-value and
+    # const_cast<edge&>(*it).add_face(..) updates the stored edge), set.size is the cardinality. DESIGN A.5
+    def is_edge_set(self, obj):
+        return isinstance(obj, ObjLV) and obj.ty.kind == 'set' and obj.ty.args and obj.ty.args[0].kind == 'record' and obj.ty.args[0].name == 'edge'
+
+    def ekey(self, st, n1, n2):
         e = self.e
-        A2B = z3.ArraySort(I, z3.ArraySort(I, z3.ArraySort(I, B)))
-        A2I = z3.ArraySort(I, z3.ArraySort(I, z3.ArraySort(I, I)))
-        return {'present': e.harr(st, 'set.present', A2B), 'has1': e.harr(st, 'set.has1', A2B), 'has2': e.harr(st, 'set.has2', A2B),
-                'f1': e.harr(st, 'set.f1', A2I), 'f2': e.harr(st, 'set.f2', A2I)}
+        f = e.uf('ekey', I, I, I); g1 = e.uf('ekey_1', I, I); g2 = e.uf('ekey_2', I, I)
+        t = f(n1, n2)
+        e.axiom_once(st, t, lambda: [z3.And(g1(t) == n1, g2(t) == n2)])
+        return t
+
+    def edge_key(self, st, ev):
+        """key of an edge value (its constructor has ordered the two node ids)"""
+        return self.ekey(st, ev.f['n1_id_'], ev.f['n2_id_'])
 
     def set_clear(self, st, obj):
+        self.sset_init(st, obj)
+
+    def setiter(self, ref, key, end):
+        return Rec('setiter', {'ref': ref, 'key': key, 'end': end})
+
+    def eset_member(self, st, ref, key):
+        return z3.Select(self.sset_member(st, ref), key)
+
+    def eset_find(self, st, obj, ev):
+        key = self.edge_key(st, ev)
+        return self.setiter(obj.ref, key, z3.Not(self.eset_member(st, obj.ref, key)))
+
+    def eset_insert_value(self, st, obj, ev, n, fr):
+        """insert / emplace of an edge value: returns (iterator, inserted)"""
         e = self.e
-        self.set_arrays(st)
-        st.heap['set.present'] = z3.Store(st.heap['set.present'], obj.ref, z3.K(I, z3.K(I, z3.BoolVal(False))))
-        e.hwrite(st, 'set.size', obj.ref, z3.IntVal(0))
+        ety = obj.ty.args[0]
+        key = self.edge_key(st, ev)
+        had = self.eset_member(st, obj.ref, key)
+        old = e.vec_read(st, obj.ref, key, ety)
+        self.sset_add(st, obj, key)
+        e.vec_write(st, obj.ref, key, ety, merge_vals([had, z3.Not(had)], [old, ev]) if not z3.is_false(z3.simplify(had)) else ev)      # an equivalent edge already stored is kept
+        return self.setiter(obj.ref, key, z3.BoolVal(False)), z3.Not(had)
+
+    def eset_erase_key(self, st, obj, key):
+        e = self.e
+        arr = e.harr(st, 'sset.member', z3.ArraySort(I, z3.ArraySort(I, B)))
+        mem = z3.Select(arr, obj.ref)
+        had = z3.Select(mem, key)
+        st.heap['sset.member'] = z3.Store(arr, obj.ref, z3.Store(mem, key, z3.BoolVal(False)))
+        sz = e.hread(st, 'set.size', obj.ref, I)
+        e.hwrite(st, 'set.size', obj.ref, z3.If(had, sz - 1, sz))
+        return had
 
     def m_set_clear(self, st, obj, bt, args, n, fr):
         if self.is_scalar_set(obj): return self.sset_init(st, obj)
@@ -829,6 +881,14 @@ class Models:
 
     def m_set_insert(self, st, obj, bt, args, n, fr):
         e = self.e
+        if self.is_edge_set(obj):
+            v = e.rv(args[0], st, fr)
+            if isinstance(v, Rec) and v.t == 'initlist':
+                for i in range(len(v.f)): self.eset_insert_value(st, obj, v.f[str(i)], n, fr)
+                return None
+            if not (isinstance(v, Rec) and 'n1_id_' in v.f): raise Unsupported('set<edge>::insert form at %s' % e.where(n, fr))
+            it, ins = self.eset_insert_value(st, obj, v, n, fr)
+            return Rec('pair', {'first': it, 'second': ins})
         if not self.is_scalar_set(obj): raise Unsupported('set::insert on %r at %s' % (obj, e.where(n, fr)))
         if len(args) == 2:
             b = e.rv(args[0], st, fr); en = e.rv(args[1], st, fr)
@@ -867,6 +927,59 @@ class Models:
     m_map_insert = m_set_insert
     m_map_clear = m_set_clear
 
+    def m_set_emplace(self, st, obj, bt, args, n, fr):
+        e = self.e
+        if not self.is_edge_set(obj): raise Unsupported('set::emplace on %r at %s' % (obj, e.where(n, fr)))
+        ety = obj.ty.args[0]
+        ctor_t = 'void (%s)' % ', '.join(['unsigned int'] * len(args))
+        ev = self.construct_value_class(n, ety, list(args), ctor_t, st, fr)
+        it, ins = self.eset_insert_value(st, obj, ev, n, fr)
+        return Rec('pair', {'first': it, 'second': ins})
+
+    def m_set_find(self, st, obj, bt, args, n, fr):
+        e = self.e
+        if not self.is_edge_set(obj): raise Unsupported('set::find on %r at %s' % (obj, e.where(n, fr)))
+        return self.eset_find(st, obj, e.rv(args[0], st, fr))
+
+    def m_set_end(self, st, obj, bt, args, n, fr):
+        if not self.is_edge_set(obj): raise Unsupported('set::end on %r' % (obj,))
+        return self.setiter(obj.ref, z3.IntVal(-1), z3.BoolVal(True))
+    m_set_cend = m_set_end
+
+    def m_set_begin(self, st, obj, bt, args, n, fr):
+        e = self.e
+        if not self.is_edge_set(obj): raise Unsupported('set::begin on %r' % (obj,))
+        sz = self.m_set_size(st, obj, bt, [], n, fr)
+        k = e.fresh('set.first', I)
+        st.pc.append(z3.Implies(sz > 0, self.eset_member(st, obj.ref, k)))
+        self.member_key_axioms(st, obj, k)
+        return self.setiter(obj.ref, k, sz <= 0)
+    m_set_cbegin = m_set_begin
+
+    def member_key_axioms(self, st, obj, k):
+        """k is the key of a stored edge: it is the key of that edge's node pair"""
+        e = self.e
+        ev = e.vec_read(st, obj.ref, k, obj.ty.args[0])
+        f = e.uf('ekey', I, I, I); g1 = e.uf('ekey_1', I, I); g2 = e.uf('ekey_2', I, I)
+        st.pc.append(z3.Implies(self.eset_member(st, obj.ref, k), z3.And(k == f(ev.f['n1_id_'], ev.f['n2_id_']), g1(k) == ev.f['n1_id_'], g2(k) == ev.f['n2_id_'])))
+
+    def m_set_empty(self, st, obj, bt, args, n, fr):
+        return self.m_set_size(st, obj, bt, [], n, fr) == 0
+
+    def m_set_erase(self, st, obj, bt, args, n, fr):
+        e = self.e
+        if not self.is_edge_set(obj): raise Unsupported('set::erase on %r at %s' % (obj, e.where(n, fr)))
+        a0 = e.rv(args[0], st, fr)
+        if isinstance(a0, Rec) and a0.t == 'setiter':
+            if e.safety_on('bounds'):
+                e.oblige(st, 'safety:erase-of-a-valid-iterator', z3.And(z3.Not(a0.f['end']), a0.f['ref'] == obj.ref, self.eset_member(st, obj.ref, a0.f['key'])), where=e.where(n, fr))
+            self.eset_erase_key(st, obj, a0.f['key'])
+            return self.setiter(obj.ref, e.fresh('set.next', I), e.fresh('set.next_is_end', B))
+        if isinstance(a0, Rec) and 'n1_id_' in a0.f:
+            had = self.eset_erase_key(st, obj, self.edge_key(st, a0))
+            return z3.If(had, z3.IntVal(1), z3.IntVal(0))
+        raise Unsupported('set::erase form at %s' % e.where(n, fr))
+
     def m_map_index(self, st, obj, bt, args, n, fr):
         e = self.e
         if not self.is_scalar_set(obj): raise Unsupported('map::operator[] on %r at %s' % (obj, e.where(n, fr)))
@@ -880,6 +993,9 @@ class Models:
 
     def m_set_count(self, st, obj, bt, args, n, fr):
         e = self.e
+        if self.is_edge_set(obj):
+            it = self.eset_find(st, obj, e.rv(args[0], st, fr))
+            return z3.If(it.f['end'], z3.IntVal(0), z3.IntVal(1))
         if not self.is_scalar_set(obj): raise Unsupported('set::count on %r' % (obj,))
         k = e.raw(e.rv(args[0], st, fr))
         return z3.If(z3.Select(self.sset_member(st, obj.ref), k), z3.IntVal(1), z3.IntVal(0))
@@ -987,10 +1103,24 @@ class Models:
             return r
         if name in ('operator==', 'operator!=', 'operator<', 'operator-', 'operator+', 'operator<=', 'operator>', 'operator>=') and len(args) == 2:
             a = e.rv(args[0], st, fr); b = e.rv(args[1], st, fr)
+            if isinstance(a, Rec) and a.t == 'setiter' and isinstance(b, Rec) and b.t == 'setiter' and name in ('operator==', 'operator!='):
+                same = z3.Or(z3.And(a.f['end'], b.f['end']), z3.And(z3.Not(a.f['end']), z3.Not(b.f['end']), a.f['key'] == b.f['key']))
+                return same if name == 'operator==' else z3.Not(same)
             if isinstance(a, Rec) and a.t == 'optional' and isinstance(b, Opaque): return a.f['has'] == (name == 'operator!=')
+            if name in ('operator==', 'operator!='):
+                # std::optional<T> compared with a T (or another optional): equal iff both engaged with equal values, or both empty
+                if isinstance(a, Rec) and a.t == 'optional' and is_z3(b):
+                    eq_ = z3.And(a.f['has'], a.f['value'] == b); return eq_ if name == 'operator==' else z3.Not(eq_)
+                if isinstance(b, Rec) and b.t == 'optional' and is_z3(a):
+                    eq_ = z3.And(b.f['has'], b.f['value'] == a); return eq_ if name == 'operator==' else z3.Not(eq_)
+                if isinstance(a, Rec) and a.t == 'optional' and isinstance(b, Rec) and b.t == 'optional':
+                    eq_ = z3.Or(z3.And(z3.Not(a.f['has']), z3.Not(b.f['has'])), z3.And(a.f['has'], b.f['has'], a.f['value'] == b.f['value']))
+                    return eq_ if name == 'operator==' else z3.Not(eq_)
             return e.arith(name[len('operator'):], a, b, TY.of_node(n), st, n, fr)
         if name in ('operator*', 'operator->') and len(args) == 1:
             p = e.rv(args[0], st, fr)
+            if isinstance(p, Rec) and p.t == 'setiter':
+                return p if name == 'operator->' else self.setiter_deref(st, p, n, fr)
             if name == 'operator->' and isinstance(p, Ptr):
                 if p.cls is None and a0t.kind == 'ptr' and a0t.args: p = Ptr(p.ref, e.ptr_cls(a0t))
                 return p
@@ -1023,6 +1153,12 @@ class Models:
             return self.opaque_result(n, f.what.split('<')[0] + '()')
         raise Unsupported('call of a library function object')
 
+    def setiter_deref(self, st, p, n, fr):
+        e = self.e
+        if e.safety_on('bounds'):
+            e.oblige(st, 'safety:dereferenced-set-iterator-is-not-end', z3.Not(p.f['end']), where=e.where(n, fr) if n is not None else None)
+        return ElemLV(p.f['ref'], p.f['key'], TY.parse('edge'))
+
     # iterators ------------------------------------------------------------------------
     def iter_deref(self, st, it):
         e = self.e
@@ -1054,6 +1190,9 @@ class Models:
         e = self.e
         name = e.raw(e.rv(args[0], st, fr)) if args else z3.IntVal(0)
         return Ptr(e.uf('xml.next_sibling', I, I, I)(obj.ref, name), 'tinyxml2::XMLElement')
+    def m_record_shared_from_this(self, st, obj, bt, args, n, fr):
+        return Ptr(obj.ref, obj.ty.name if isinstance(obj, ObjLV) else None)
+
     def m_record_GetText(self, st, obj, bt, args, n, fr):
         return self.e.uf('xml.text', I, I)(obj.ref)
     def m_record_LoadFile(self, st, obj, bt, args, n, fr):
@@ -1064,6 +1203,9 @@ class Models:
     def m_optional_has_value(self, st, obj, bt, args, n, fr): return self._opt(st, obj).f['has']
     def m_optional_bool(self, st, obj, bt, args, n, fr): return self._opt(st, obj).f['has']
     def m_optional_value(self, st, obj, bt, args, n, fr):
+        if self.e.safety_on('optional'):
+            # value() on an empty optional throws std::bad_optional_access (std::terminate inside the noexcept accessors)
+            self.e.oblige(st, 'safety:optional-has-a-value', self._opt(st, obj).f['has'], where=self.e.where(n, fr))
         if isinstance(obj, LVS): return self.e.member_lv(st, obj, 'value', None)
         return obj.f['value']
     def m_optional_reset(self, st, obj, bt, args, n, fr):
